@@ -309,7 +309,7 @@ impl SimDisk {
             return self.finish(gate, Ok(()));
         }
         let n = w.ordinal(&format!("disk.set:{key}"));
-        let rate = w.profile.disk.fail_set;
+        let rate = if w.profile.disk.fail_keys.is_empty() || w.profile.disk.fail_keys.iter().any(|k| k == key) { w.profile.disk.fail_set } else { 0 };
         let life = w.life;
         let fail = w.draws.chance(&format!("L{life}/disk/set:{key}#{n}/fail"), rate);
         let res = if fail {
@@ -370,7 +370,7 @@ impl Storage for SimDisk {
             return self.finish(gate, Ok(()));
         }
         let n = w.ordinal(&format!("disk.remove:{key}"));
-        let rate = w.profile.disk.fail_remove;
+        let rate = if w.profile.disk.fail_keys.is_empty() || w.profile.disk.fail_keys.iter().any(|k| k == key) { w.profile.disk.fail_remove } else { 0 };
         let life = w.life;
         let fail = w.draws.chance(&format!("L{life}/disk/remove:{key}#{n}/fail"), rate);
         let res = if fail {
